@@ -203,6 +203,50 @@ def run_group(in_dtype, out_dtype, values, order="native"):
             "shape": list(data.shape), "runs": runs, "data": data}
 
 
+# ------------------------------------------------- encoder entry points ------
+ENCODINGS = {"raw": OUT_DTYPES, "compressed_segmentation": ["uint32", "uint64"]}
+
+
+def run_encoder_group(encoding, in_dtype, out_dtype, values):
+    """The other place where the package may convert voxel types: the lossless
+    chunk encoders' encode(chunk) called with a chunk of ANOTHER numeric type
+    than the dataset's data_type.  Records the exception class, or the values
+    that were actually stored (raw: the bytes read as little-endian elements of
+    the dataset type; compressed_segmentation: the package's own decoder, which
+    no conversion passes through)."""
+    from neuroglancer_scripts import chunk_encoding
+    values = list(values)
+    while len(values) % 4:
+        values.append(Fraction(0))
+    data = make_array(values, in_dtype).reshape(1, 2, 2, -1)
+    if [exact(x) for x in data.ravel().tolist()] != values:
+        raise AssertionError("input array does not hold the requested values exactly")
+    rec = {"encoding": encoding, "in": in_dtype, "out": out_dtype, "values": values,
+           "exc": "", "msg": "", "elems": None}
+    if encoding == "raw":
+        enc = chunk_encoding.RawChunkEncoder(out_dtype, 1)
+    else:
+        enc = chunk_encoding.CompressedSegmentationEncoder(out_dtype, 1, [8, 8, 8])
+    before = data.copy()
+    try:
+        with warnings.catch_warnings():
+            warnings.simplefilter("ignore")
+            buf = enc.encode(data)
+    except Exception as e:      # recorded: a refusal
+        rec["exc"] = type(e).__name__
+        rec["msg"] = str(e)[:200]
+        return rec
+    rec["input_unchanged"] = bool(np.array_equal(before, data))
+    if encoding == "raw":
+        stored = np.frombuffer(bytes(buf), dtype=np.dtype(out_dtype).newbyteorder("<"))
+    else:
+        stored = enc.decode(bytes(buf), (data.shape[3], data.shape[2], data.shape[1])).ravel()
+    rec["stored_count"] = int(stored.size)
+    if stored.size == data.size:
+        rec["elems"] = [stored[k] for k in range(stored.size)]
+    return rec
+
+
 # ------------------------------------------------------------ random values -
 def _int_candidates(rng, dt, out_dt, n):
     info = np.iinfo(dt)
